@@ -79,16 +79,28 @@ CrashSafe == LET out == Restart IN
 \* starts with the inode of the store that was in progress (slot versions are not compared)
 MixedEditions(e) == /\ cur # NoCur /\ Content(e)[1] = <<cur.id, 1>>
                     /\ \A k \in 1..Len(e.chain) : stores[Content(e)[k][1]].obj = cur.obj
-CrashSafeUpToMixedEditions ==
+\* ... or its chain runs through a slot that now belongs to another URL (finding F6c of C57: finalizeOrThrow accepts a slot
+\* mapped for another entry; here the stale inode of an evicted entry still points to a slot that was reused)
+CrashSafeUpToKnown ==
              LET out == Restart IN
              /\ Terminated(out)
              /\ \A i \in 1..Len(out.ent) : Servable(out.ent[i]) =>
                    \/ \E id \in Finished : Content(out.ent[i]) = WholeStore(id)
                    \/ MixedEditions(out.ent[i])
+                   \/ ForeignSlot(Image, out.ent[i])
 \* C17: with no store in progress (clean shutdown), every readable entry of the in-memory index is readable after Restart
 \* with the same content
 SurvivesShutdown == cur = NoCur =>
              LET out == Restart IN
              \A o \in 1..Objs : cache[o] # 0 =>
                 \E i \in 1..Len(out.ent) : out.ent[i].key = o /\ Servable(out.ent[i]) /\ Content(out.ent[i]) = WholeStore(cache[o])
+\* what today's rebuild achieves: an entry is lost when slots of an earlier edition of the same URL are still on the disk
+\* (eviction does not wipe slots; useNewSlot() treats them as duplicates of the loaded entry and drops both)
+StaleSameKey(o) == \E s \in 0..(N - 1) : disk[s].t = "H" /\ disk[s].key = o /\ s \notin SeqSet(stores[cache[o]].slots)
+SurvivesShutdownUpToStale == cur = NoCur =>
+             LET out == Restart IN
+             \A o \in 1..Objs : cache[o] # 0 =>
+                \/ StaleSameKey(o)
+                \/ ("own" \notin Fix /\ \E i \in 1..Len(out.ent) : out.ent[i].key # o /\ ForeignSlot(Image, out.ent[i])) \* F6c
+                \/ \E i \in 1..Len(out.ent) : out.ent[i].key = o /\ Servable(out.ent[i]) /\ Content(out.ent[i]) = WholeStore(cache[o])
 ====
